@@ -203,7 +203,7 @@ func C02(c *vk.Ctx) {
 		}
 	}
 	gs, res := exportOcspGraphs(c, cfgs, 0, 2, "absolute", "issuer")
-	c.Set("states", res.Distinct)
+	c.Add("states", res.Distinct)
 	var trans int64
 	walks := 0
 	for i, g := range gs {
@@ -229,6 +229,38 @@ func C02(c *vk.Ctx) {
 		if i%150 == 0 {
 			c.Sample(map[string]any{"cfg": cfg})
 		}
+	}
+	// the other certificate first: same subject and serial under the other issuer (in a third of the worlds the issuers carry the
+	// same name, in another third the same key identifier) is queried on the same instance before cA is. Whatever the instance
+	// learnt from that query - candidates, answers, cache entries - the three properties hold for cA as if it had come first.
+	var cfgs2 []OcspCfg
+	for _, a := range c02Classes {
+		for _, strict := range []bool{false, true} {
+			for _, dur := range []int{0, 2} {
+				for _, lb := range [][]string{{"good"}, {"revoked"}} {
+					cfgs2 = append(cfgs2, ocspCfg(strict, dur, "absent", []string{a}, lb))
+				}
+			}
+		}
+	}
+	gs2, res2 := exportOcspGraphs(c, cfgs2, 0, 2, "absolute", "issuer")
+	c.Add("states", res2.Distinct)
+	for i, g := range gs2 {
+		trans += int64(len(g.Edges))
+		cfg := cfgs2[i]
+		g.AllPaths(2, func(p []*graph.Edge) {
+			if len(p) != 2 || c.Violations() > 6 {
+				return
+			}
+			var op0, op1 []any
+			json.Unmarshal(p[0].Op, &op0)
+			json.Unmarshal(p[1].Op, &op1)
+			if op0[0] != "query" || op1[0] != "query" || op0[2] != "cB" || op1[2] != "cA" || op0[1] != op1[1] {
+				return
+			}
+			runOcspWalk(c, cfg, append([]*graph.Edge(nil), p...), c.Seed*7927+int64(walks), predC02)
+			walks++
+		})
 	}
 	// through the whole validator: every mode that enables OCSP must enforce the OCSP verdict, whatever the CRL side says
 	var hcfgs []HubCfg
@@ -299,7 +331,7 @@ func predC05(c *vk.Ctx, o *ocspObs) {
 	}
 }
 
-var c05NoAnswer = []string{"stranger", "strangerEmbedded", "ownCert", "ownCertBare", "delegNoEku", "delegNoEkuBare", "sibling", "otherSerial", "errStatus", "http500", "garbage", "wrongContent"}
+var c05NoAnswer = []string{"stranger", "strangerEmbedded", "ownCert", "ownCertBare", "ownCertAsIssuer", "delegNoEku", "delegNoEkuBare", "delegNoEkuAsIssuer", "sibling", "otherSerial", "errStatus", "http500", "garbage", "wrongContent"}
 
 // C05 — OCSP authenticity.
 func C05(c *vk.Ctx) {
